@@ -79,13 +79,44 @@ struct Rec {
 };
 inline std::vector<Rec> g_log;
 
-inline void print_log(Out& o)
+[[gnu::noinline]] inline void print_log(Out& o)
 {
     o.tok("n" + std::to_string(g_log.size()));
     for (auto const& r : g_log) {
         o.tok("q" + std::to_string(r.thisq));
         for (auto const& a : r.args) { o.tok(std::to_string(a.first) + ":" + std::to_string(a.second)); }
     }
+}
+
+// non-template sinks, so that the many template instantiations stay small
+[[gnu::noinline]] inline i64 log_call(int id, int q, std::initializer_list<std::pair<int, int>> args)
+{
+    Rec r{id, q, {}};
+    i64 res = id;
+    for (auto const& a : args) {
+        r.args.push_back(a);
+        res = res * 31 + a.second;
+    }
+    g_log.push_back(r);
+    return res;
+}
+[[gnu::noinline]] inline void emit_cat(Out& o, int cat, bool same)
+{
+    o.tok("ok").num(cat).tok(same ? "same" : "DIFFERENT-OBJECT");
+}
+[[gnu::noinline]] inline void emit_cat2(Out& o, int cat0, int cat1, bool same)
+{
+    o.tok("ok").num(cat0).num(cat1).tok(same ? "same" : "DIFFERENT-OBJECT");
+}
+[[gnu::noinline]] inline void emit_result_and_log(Out& o, bool result_ok)
+{
+    o.tok("ok").tok(result_ok ? "r1" : "r0");
+    print_log(o);
+}
+[[gnu::noinline]] inline void emit_log(Out& o)
+{
+    o.tok("ok");
+    print_log(o);
 }
 
 // arguments may arrive wrapped in a reference_wrapper (bind_front stores decay_t of its bound arguments):
@@ -124,12 +155,7 @@ struct Callee {
     template <typename... As>
     i64 rec(int q, As&&... as) const
     {
-        Rec r{id, q, {}};
-        (r.args.emplace_back(argcat<As&&>(), argval(as)), ...);
-        i64 res = id;
-        for (auto const& a : r.args) { res = res * 31 + a.second; }
-        g_log.push_back(r);
-        return res;
+        return log_call(id, q, {std::pair<int, int>{argcat<As&&>(), argval(as)}...});
     }
     template <typename... As> i64 operator()(As&&... as) & { return rec(0, std::forward<As>(as)...); }
     template <typename... As> i64 operator()(As&&... as) const& { return rec(1, std::forward<As>(as)...); }
